@@ -139,7 +139,7 @@ inductive Fmt
   deriving DecidableEq, Repr, Inhabited
 
 /-- What `ast.literal_eval` makes of a text (`Nodes.typed_value`), for the modelled texts. -/
-inductive Typed
+inductive ETyped
   | bool (b : Bool) | none | int (i : Int) | float (m e : Int) | str | unmodelled
   deriving DecidableEq, Repr, Inhabited
 
@@ -164,7 +164,7 @@ def normFloat (m e : Int) : Int × Int :=
   if m = 0 then (0, 0) else stripTens 400 m e
 
 /-- unsigned numeric literal: `0 | [1-9][0-9]*` (int) or `digits+ . digits+` (float) -/
-def unsignedLit (s : Str) : Typed :=
+def unsignedLit (s : Str) : ETyped :=
   let ip := s.takeWhile isDigit
   let rest := s.dropWhile isDigit
   if ip = [] then .unmodelled
@@ -178,7 +178,7 @@ def unsignedLit (s : Str) : Typed :=
       else .unmodelled
     | _ => .unmodelled
 
-def negTyped : Typed → Typed
+def negTyped : ETyped → ETyped
   | .int i => .int (-i)
   | .float m e => .float (-m) e
   | t => t
@@ -188,7 +188,7 @@ function for short texts by the harness): true/false in any case; `None`; decima
 positional float literals with one optional sign; words (a letter or `_` first, then letters,
 digits, `_`, blank, `-`, `.`) and the empty text, which stay text.  Everything else
 (quotes, brackets, exponents, underscores in numbers, …) is `unmodelled`. -/
-def typedValue (s : Str) : Typed :=
+def eTypedValue (s : Str) : ETyped :=
   let low := lowerStr s
   if low = "true".toList then .bool true
   else if low = "false".toList then .bool false
@@ -205,7 +205,7 @@ def typedValue (s : Str) : Typed :=
 
 /-- Python `repr(float)` for the canonical decimal `m × 10^e`, positional notation only
 (`none`: exponent notation would be used — out of model). -/
-def pyReprFloat (m e : Int) : Option Str :=
+def ePyReprFloat (m e : Int) : Option Str :=
   if m = 0 then some "0.0".toList
   else
     let ds := natDigits m.natAbs
@@ -223,7 +223,7 @@ def pyStrVal : Scalar → Option Str
   | .bool true => some "True".toList
   | .bool false => some "False".toList
   | .int i => some (pyStrInt i)
-  | .float m e => pyReprFloat m e
+  | .float m e => ePyReprFloat m e
   | .str s => some s
   | .opaque _ => none
 
@@ -257,7 +257,7 @@ def fmtFloat (v : Scalar) : Except Err Scalar :=
   | .int i => if i.natAbs ≥ 10 ^ 15 then .error .outOfModel else
       let (m, e) := normFloat i 0; .ok (.float m e)
   | .float m e => .ok (.float m e)
-  | .str s => match typedValue s with
+  | .str s => match eTypedValue s with
     | .int i => let (m, e) := normFloat i 0; .ok (.float m e)
     | .float m e => .ok (.float m e)
     | .unmodelled => .error .outOfModel
@@ -274,7 +274,7 @@ def fmtInt (v : Scalar) : Except Err Scalar :=
   | .bool b => .ok (.int (if b then 1 else 0))
   | .int i => .ok (.int i)
   | .float m e => if e ≥ 0 then .ok (.int (m * pow10 e.toNat)) else .ok (.int (Int.tdiv m (pow10 (-e).toNat)))
-  | .str s => match typedValue s with
+  | .str s => match eTypedValue s with
     | .int i => .ok (.int i)
     | .unmodelled => .error .outOfModel
     | _ => .error valueError
@@ -301,7 +301,7 @@ def newScalar (anchored : Bool) (v : Scalar) (fmt : Fmt) : Except Err Scalar :=
     | .int i => .ok (.int i)
     | .float m e => .ok (.float m e)
     | .opaque _ => .error .outOfModel
-    | .str s => match typedValue s with
+    | .str s => match eTypedValue s with
       | .bool _ => fmtBoolean v
       | .int _ => fmtInt v
       | .float _ _ => fmtFloat v
@@ -314,7 +314,7 @@ def newScalar (anchored : Bool) (v : Scalar) (fmt : Fmt) : Except Err Scalar :=
 def wrapType (v : Scalar) : Except Err Scalar :=
   match v with
   | .opaque _ => .error .outOfModel
-  | .str s => match typedValue s with
+  | .str s => match eTypedValue s with
     | .bool b => .ok (.bool b)
     | .int i => .ok (.int i)
     | .float m e => .ok (.float m e)
